@@ -85,6 +85,10 @@ func UnmarshalPayload(b []byte) (Payload, error) {
 			if err := unmarshalPayloadDetails(&p, details); err != nil {
 				return p, err
 			}
+		case num == 1:
+			// Details is a known field: any other wire type is a protocol
+			// violation, the same rule unmarshalPayloadDetails applies.
+			return p, errInvalidHandshakeMessage
 		default:
 			n := protowire.ConsumeFieldValue(num, typ, b)
 			if n < 0 {
